@@ -370,6 +370,8 @@ def check_branch(P, R, key, rule="BRANCH"):
                 r2 = stable_roots(P, f, du, a2, site) - flags
                 if r2 <= r1 and r1 - r2 <= {"y"}:
                     r1 = r2  # the Dask arm may additionally use the labels: it works on per-class splits of the same data
+                elif r1 <= r2 and r2 - r1 <= {"y"}:
+                    r2 = r1  # ... and so may the in-memory arm, when it groups the sessions by class itself
                 if isinstance(a1, ast.Subscript) and isinstance(a2, ast.Subscript) and src(a1.value) == src(a2.value):
                     c1, c2 = const_value(a1.slice), const_value(a2.slice)
                     if (c1 is None) != (c2 is None):
@@ -735,6 +737,8 @@ def check_pairwise_folds(P, R, modules, rule="COVER.pairs"):
             n += 1
             R.check(odd_tail_handled(f.node, lst), rule, f.key, txt[:70], "the unpaired last element of an odd-length level is carried over", f"`{lst}` is reduced by pairing neighbours, and nothing keeps the last element when its length is odd: with 3, 5, 6, 7 ... partial results some of them never reach the result (exact only for powers of two)", node.lineno)
     R.ok(rule, "package", f"{n} neighbour-pairing reductions in {', '.join(modules)}; matcher exercised on the embedded example", "")
+    from . import cover as _cover
+    n += _cover.check_module_trees(P, R, modules)
     return n
 
 
@@ -779,6 +783,11 @@ def fold_whole(P, f, name, depth=0):
     for st, t, v, k in stores(f):
         if isinstance(t, ast.Name) and t.id != name and isinstance(v, ast.Call) and src(v.func) in ("list", "tuple", "iter") and v.args and isinstance(v.args[0], ast.Name) and v.args[0].id == name and depth < 3:
             verdicts.append(fold_whole(P, f, t.id, depth + 1))
+    # tree reductions over this list (or a copy of it): the COVER engine decides whether every element is covered
+    from . import cover as _cover
+    for kind, node, lst, v_, why in _cover.tree_sites(P, f):
+        if name in _cover.alias_roots(f, lst):
+            verdicts.append("whole" if v_ == "ok" else ("partial" if v_ == "violation" else "unknown"))
     if "partial" in verdicts:
         return "partial"
     if any(v in ("whole", "whole-if-pairs-ok") for v in verdicts):
@@ -837,6 +846,24 @@ def check_accumulation_signs(P, R, key, rule="ACC.sum"):
         if isinstance(b, ast.Name) and b.id in zero_locals and any(isinstance(p_, (ast.For, ast.While)) for p_ in _parents_of(st)):
             n += 1
             R.check(isinstance(st.op, ast.Add), rule, key, src(st)[:60], "summed", f"`{src(st)[:50]}` updates the zero-initialised accumulator `{b.id}` with `{type(st.op).__name__}` instead of adding to it", st.lineno)
+    # the same sums written without a loop: acc[:] = <grouped sum>, np.add.at(acc, labels, values)
+    from . import pol as _pol
+    pp = None
+    for st in walk_no_nested(f.node):
+        if isinstance(st, ast.Assign) and len(st.targets) == 1 and isinstance(st.targets[0], ast.Subscript) and isinstance(st.targets[0].value, ast.Name) and st.targets[0].value.id in zero_locals:
+            sl = st.targets[0].slice
+            full = (isinstance(sl, ast.Slice) and sl.lower is None and sl.upper is None and sl.step is None) or (isinstance(sl, ast.Constant) and sl.value is Ellipsis)
+            if not full:
+                continue
+            n += 1
+            pp = pp or _pol.Pol(P, f)
+            ts = list(dict.fromkeys(pp.terms(st.value, st)))
+            neg = [t for t in ts if t[0] < 0]
+            R.check(not neg, rule, key, src(st)[:60], "summed", f"`{src(st)[:50]}` stores the sums with a minus sign ({_pol.fmt_terms(neg)[:60]})", st.lineno)
+        if isinstance(st, ast.Expr) and isinstance(st.value, ast.Call) and isinstance(st.value.func, ast.Attribute) and st.value.func.attr == "at" and isinstance(st.value.func.value, ast.Attribute) and st.value.args and isinstance(st.value.args[0], ast.Name) and st.value.args[0].id in zero_locals:
+            n += 1
+            uf = st.value.func.value.attr
+            R.check(uf == "add", rule, key, src(st)[:60], "summed", f"`{src(st)[:50]}` updates the zero-initialised accumulator with `{uf}.at` instead of adding to it", st.lineno)
     return n
 
 
@@ -845,3 +872,22 @@ def _parents_of(n):
     while p is not None:
         yield p
         p = getattr(p, "_parent", None)
+
+
+def check_label_compares(P, R, key, labels=("y",), rule="IDX.class-eq"):
+    """In a function that sums statistics per class, a comparison between class ids and the labels of the samples (a one-hot
+    membership matrix, a mask) selects the members of the class only when it is an equality."""
+    from ..dataflow import cone as _cone
+    f, key = _site(P, key)
+    du = get_defuse(f, P)
+    n = 0
+    for c in walk_no_nested(f.node):
+        if isinstance(c, ast.Compare) and len(c.ops) == 1 and not isinstance(c.ops[0], (ast.Is, ast.IsNot, ast.In, ast.NotIn)):
+            st = du.stmt_of(c)
+            if isinstance(st, (ast.If, ast.While, ast.Assert)) and any(c is x for x in ast.walk(st.test)):
+                continue  # a control-flow test, not a mask
+            sides = [_cone(du, x, st, interproc=False) for x in (c.left, c.comparators[0])]
+            if any(set(labels) & s_.params for s_ in sides):
+                n += 1
+                R.check(isinstance(c.ops[0], ast.Eq), rule, key, src(c)[:60], "membership by equality of label and class", f"`{src(c)[:50]}` does not select the samples whose label *is* the class: the class sums mix the classes", c.lineno)
+    return n
